@@ -651,16 +651,19 @@ pub fn gen_trait(t: &mut Tape, name: &str, cfg: &TraitGenCfg) -> TraitSrc {
     let mut where_ = String::new();
     let mut supertraits = String::new();
     if cfg.generics {
-        match t.weighted(&[6, 2, 1, 1]) {
+        match t.weighted(&[6, 2, 1, 1, 1, 1]) {
             0 => {}
             1 => generics = "<U>".into(),
             2 => {
                 generics = "<U: Clone, const K: usize>".into();
             }
-            _ => {
+            3 => {
                 generics = "<'t, U>".into();
                 where_ = " where U: 't + Send".into();
             }
+            // declaration orders a normalising printer would change
+            4 => generics = "<const K: usize, U>".into(),
+            _ => generics = "<W, const K: usize, U: Clone>".into(),
         }
         match t.weighted(&[6, 2, 1, 1]) {
             0 => {}
